@@ -66,7 +66,7 @@ impl DataItem for DateItem {
                     0 => (),
                     n => {
                         let years_diff = date.year() + n as i32;
-                        date     = NaiveDate::from_ymd(years_diff as i32, date.month() as u32, date.day());
+                        date     = NaiveDate::from_ymd_opt(years_diff as i32, date.month() as u32, date.day())?;
                         duration = Duration::seconds(duration.num_seconds() - (YEAR * n))
                     }
                 };
@@ -76,11 +76,11 @@ impl DataItem for DateItem {
                     n => {
                         let years_diff = (date.month() - 1 + n as u32) / 12;
                         let month = (date.month() - 1 + n as u32) % 12 + 1;
-                        date     = NaiveDate::from_ymd(date.year() + years_diff as i32, month as u32, date.day());
+                        date     = NaiveDate::from_ymd_opt(date.year() + years_diff as i32, month as u32, date.day())?;
                         duration = Duration::seconds(duration.num_seconds() - (MONTH * n))
                     }
                 };
-                Some(Rc::new(DateItem(date + duration, self.1.clone())))
+                Some(Rc::new(DateItem(date.checked_add_signed(duration)?, self.1.clone())))
             },
 
             OperationType::Sub => {
@@ -88,7 +88,7 @@ impl DataItem for DateItem {
                     0 => (),
                     n => {
                         let years_diff = date.year() - n as i32;
-                        date     = NaiveDate::from_ymd(years_diff as i32, date.month() as u32, date.day());
+                        date     = NaiveDate::from_ymd_opt(years_diff as i32, date.month() as u32, date.day())?;
                         duration = Duration::seconds(duration.num_seconds() - (YEAR * n))
                     }
                 };
@@ -102,11 +102,11 @@ impl DataItem for DateItem {
                             months += 12;
                         }
 
-                        date = NaiveDate::from_ymd(years as i32, months as u32, date.day());
+                        date = NaiveDate::from_ymd_opt(years as i32, months as u32, date.day())?;
                         duration = Duration::seconds(duration.num_seconds() - (MONTH * n))
                     }
                 };
-                Some(Rc::new(DateItem(date - duration, self.1.clone())))
+                Some(Rc::new(DateItem(date.checked_sub_signed(duration)?, self.1.clone())))
             },
             _ => None
         }
